@@ -83,6 +83,11 @@ CHECKS = {
             "TLC random-walks string operations (len, get, substring, find with start, rfind, contains, starts/ends_with, partition, rpartition, strip family, replace, reverse, mul, lower, upper, cmp, chars, add, split, code_point, eq) over an abstract alphabet of 1-4 byte characters, a combining mark and case-expanding characters and records results by list semantics (positions are code-point positions); the interpreter must agree and the dual representation of every result (byte buffer + character table) must be exact. Literal spellings are generated by encoding a text (quote kind, fences, raw, escapes, formatted) and must denote that text; formatted strings must equal the join of their parts.",
             "Negative string indices, empty needles, positions beyond the end and \\u{..} inside formatted strings are left open by the documentation and not generated.",
             "DESIGN.md 6 C18"),
+    "C14": ("model_checking",
+            "TLA+ arbitrary-precision oracle (XrBigInt: limb arithmetic + defining relations) as trace acceptor over integer-builtin calls; TLC checks the limb arithmetic itself (MC_XrBigInt)",
+            "Every integer builtin result (add, sub, mul, neg, abs, cmp and the six relations, pow, floor division with floored mod, ceil division, bitwise and/or/xor, gcd, lcm, factorial, binomial, digits in 4 bases, to_str/to_int, literal vs to_int) for operand pairs across the 31/63/64/127-bit boundaries and random 1-400-bit values is an event that TLC accepts only if it is the exact result (recomputed in base-10^4 limbs or checked by the defining relation), if the Short/Long representation is canonical, and if values reached along two routes are equal, hash equally and print equally.",
+            "Not covered: int<->float conversions and `div` (no reals in TLC), multinomial, combinatorial index functions; gcd maximality relies on the interpreter's own gcd of the cofactors.",
+            "DESIGN.md 6 C14"),
 }
 
 NOT_YET = {}
